@@ -305,6 +305,37 @@ def make_run_execute(with_prlimit):
     return run_execute
 
 
+def replay_execute(name, model, detail):
+    """Replay of a refuted execute() obligation whose failing input is a
+    child that writes ill-formed UTF-8: the real execute() runs such a child.
+    Other counter-models have no native replay (None)."""
+    bad = [k for k in ('out0', 'err0')
+           if model.get(f'valid_utf8_{k}', True) is False]
+    if not bad or not name.endswith('/raises-nothing'):
+        return None
+    A = {'stream': bad[0], 'bytes': [0xff, 0xfe, 0x80]}
+    script = f'''
+import sys, types
+sys.argv = ['ddsmt', 'in.smt2', 'out.smt2', 'cmd']
+from ddsmt import checker, options
+A = {A!r}
+setattr(options, '__PARSED_ARGS',
+        types.SimpleNamespace(unchecked=False, memout=0))
+fd = 'stdout' if A['stream'] == 'out0' else 'stderr'
+child = ('import sys; sys.' + fd + '.buffer.write(bytes(' +
+         repr(A['bytes']) + '))')
+try:
+    r = checker.execute([sys.executable, '-c', child], '/dev/null', None)
+except Exception as e:
+    print('execute() raised', type(e).__name__, e,
+          'for a child writing bytes', A['bytes'], 'to', fd)
+    sys.exit(1)
+print('execute() returned', r)
+sys.exit(0)
+'''
+    return {'script': script, 'input': A}
+
+
 # -- temp file name and check_exprs ---------------------------------------------
 
 
@@ -452,7 +483,7 @@ def contracts(tier):
                  ]),
         Contract('C09/execute[prlimit]', ['ddsmt.checker.execute',
                                           'ddsmt.checker.limit_resources'],
-                 make_run_execute(True), setup=setup,
+                 make_run_execute(True), setup=setup, replay=replay_execute,
                  assumptions=A + [env.ASSUME_SUBPROCESS, env.ASSUME_RESOURCE,
                                   env.ASSUME_TIME,
                                   'cmd has two elements (list concatenation '
@@ -460,7 +491,7 @@ def contracts(tier):
         Contract('C09/execute[setrlimit]', ['ddsmt.checker.execute',
                                             'ddsmt.checker.limit_resources'],
                  make_run_execute(False),
-                 setup=lambda e: setup(e, False),
+                 setup=lambda e: setup(e, False), replay=replay_execute,
                  assumptions=A + [env.ASSUME_SUBPROCESS, env.ASSUME_RESOURCE,
                                   env.ASSUME_TIME]),
         Contract('C09/get_tmp_filename', ['ddsmt.tmpfiles.init',
